@@ -45,6 +45,11 @@ Proof. intros. epos_tac. Qed.
 #[local] Hint Resolve parse_entity_def_epos : epos.
 Lemma parse_entity_decl_epos : forall s c, epos text (parse_entity_decl text C ev s c).
 Proof. intros. epos_tac. Qed.
+Lemma consume_decl_loop_epos : forall fuel s, epos text (consume_decl_loop text fuel s).
+Proof.
+  induction fuel as [|fu IH]; intros s; cbn [consume_decl_loop]; epos_tac.
+Qed.
+#[local] Hint Resolve consume_decl_loop_epos : epos.
 Lemma consume_decl_epos : forall s, epos text (consume_decl text s).
 Proof. intros. epos_tac. Qed.
 Lemma parse_doctype_start_epos : forall s, epos text (parse_doctype_start text s).
